@@ -102,6 +102,14 @@ fn settle(sim: &mut Sim, intent: &mut Intent, lazy: bool) {
                     for c in bs {
                         sim.exec(&json!({"op": "bind_poll", "e": en(i), "c": c}));
                     }
+                    if sim.eps[i].cfg["bindCap"].as_u64().unwrap_or(0) > 0 {
+                        sim.exec(&json!({"op": "next_bind", "e": en(i)}));
+                    }
+                    // requests the application never answered are dropped (= rejected)
+                    let rs: Vec<u32> = sim.eps[i].breqs.keys().copied().collect();
+                    for r in rs {
+                        sim.exec(&json!({"op": "bind_drop", "e": en(i), "r": r}));
+                    }
                 }
                 let ws = std::mem::take(&mut intent.writes);
                 for (wi, h, len) in ws {
@@ -257,7 +265,7 @@ fn random_trace(mode: &str, rng: &mut SmallRng, steps: usize) -> Sim {
             }
             for h in sim.eps[i].streams.keys() {
                 if total_writes < write_budget {
-                    let len = pick(rng, &[1usize, 1, 2, 3, 5, 0]);
+                    let len = if std::env::var("SIM_NOZERO").is_ok() { pick(rng, &[1usize, 1, 2, 3, 5]) } else { pick(rng, &[1usize, 1, 2, 3, 5, 0]) };
                     if rng.random_range(0..4) == 0 {
                         let a = rng.random_range(0..=len);
                         cands.push((4, json!({"op": "write", "e": e, "h": h, "lens": [a, len - a], "vectored": true})));
